@@ -1203,12 +1203,15 @@ func (r *run) predicate(c px.Context, s *spec, acts []action, hashes []*types.Ha
 				if got != attrsEq {
 					add("equality-wrong", "objects %d and %d of T%d: Equals = %v, equality attributes %v equal = %v", k1, k2, t1, got, s.eqa[t1], attrsEq)
 				}
-			} else if got {
-				if s.eit[t1] || !attrsEq {
+			} else {
+				// different types: equal only when both say equality_include_type => false, both compare the same
+				// attributes (by name), and those are equal
+				want := !s.eit[t1] && !s.eit[t2] && sameNames(s.eqa[t1], s.eqa[t2]) && attrsEq
+				if got && !want {
 					add("equality-wrong", "objects %d (T%d) and %d (T%d) of different types are equal", k1, t1, k2, t2)
+				} else if !got && want {
+					add("equality-include-type", "objects %d (T%d) and %d (T%d): equality_include_type => false on both types, same equality attributes %v with equal values, yet not equal", k1, t1, k2, t2, s.eqa[t1])
 				}
-			} else if !s.eit[t1] && !s.eit[t2] && attrsEq && sameShape(s, t1, t2) {
-				add("equality-include-type", "objects %d (T%d) and %d (T%d): equality_include_type => false, identically shaped types, equal equality attributes, yet not equal", k1, t1, k2, t2)
 			}
 		}
 	}
@@ -1242,6 +1245,29 @@ func admittedBySchema(h *types.Hash) bool {
 		}
 	}
 	return ok
+}
+
+// sameNames: the same set of names
+func sameNames(a, b []string) bool {
+	in := func(n string, l []string) bool {
+		for _, x := range l {
+			if x == n {
+				return true
+			}
+		}
+		return false
+	}
+	for _, n := range a {
+		if !in(n, b) {
+			return false
+		}
+	}
+	for _, n := range b {
+		if !in(n, a) {
+			return false
+		}
+	}
+	return true
 }
 
 // sameShape: the two types have the same attributes (names, types, kinds, defaults, order) and equality attributes
